@@ -39,7 +39,7 @@ private:
 
     int push(Var &var)
     {
-      if (ptr >= 3) { return -1; }
+      if (ptr >= STACK_LEN) { return -1; }
       stack[ptr++] = var;
 
       return 0;
@@ -47,7 +47,7 @@ private:
 
     int push_front(Var &var)
     {
-      if (ptr >= 3) { return -1; }
+      if (ptr >= STACK_LEN) { return -1; }
 
       for (int n = ptr; n > 0; n--)
       {
@@ -133,7 +133,10 @@ private:
       }
     }
 
-    Var stack[3];
+    // One pending value per precedence level plus the current one.
+    static const int STACK_LEN = 8;
+
+    Var stack[STACK_LEN];
     int ptr;
   };
 
@@ -146,8 +149,14 @@ private:
 
     void push(Operator &oper)
     {
-      assert(ptr < 2);
+      assert(ptr < STACK_LEN);
       stack[ptr++] = oper;
+    }
+
+    Operator &top()
+    {
+      assert(ptr > 0);
+      return stack[ptr - 1];
     }
 
     Operator pop()
@@ -189,18 +198,24 @@ private:
     }
 
   private:
-    Operator stack[2];
+    // Pending operators always get tighter towards the top, so there can
+    // be at most one per precedence level.
+    static const int STACK_LEN = 8;
+
+    Operator stack[STACK_LEN];
     int ptr;
   };
 
+  // count is the number of operands and operators seen: after an even
+  // number of them an operand is expected, after an odd number an operator.
   static bool need_symbol(int count)
   {
-    return count == 1 || count == 3;
+    return (count & 1) == 1;
   }
 
   static bool need_number(int count)
   {
-    return count == 0 || count == 2 || count == 4;
+    return (count & 1) == 0;
   }
 
   // Limit for nested parentheses so recursion can't run out of stack.
